@@ -20,6 +20,9 @@ def gen_cases(ctx):
         c.setdefault("pre", ctx.rng.choice(PRE_READS))
         c.setdefault("flavour", ctx.rng.choice(["plain", "plain", "strided", "readonly"]))
         yield c
+        # L1 with an in-place edit: the same two objects were associated before, when the second one held other stamps
+        if c.get("kind") == "grid" and len(c["s1"]) <= 64 and ctx.rng.random() < 0.08:
+            yield dict(c, earlier_shift=ctx.rng.choice([0.25, -0.5, 1.0, 0.03125, 64.0]))
         # L9: the very same trajectory object passed for both arguments (every 12th case), also with an offset
         if ctx.rng.random() < 1 / 12 and len(c["s1"]) >= 2:
             d = dict(c)
@@ -167,6 +170,18 @@ def run_impl_(case):
     w1 = make_traj(case["s1"], 1, route, pre)
     w2 = w1 if case.get("same_obj") else make_traj(case["s2"], 2, route, pre)
     before = (snap(w1), snap(w2))
+    if case.get("earlier_shift") is not None and not case.get("same_obj") \
+            and np.array_equal((np.asarray(t2.timestamps) - case["earlier_shift"]) + case["earlier_shift"], np.asarray(t2.timestamps)):
+        # history on the SAME objects: the second trajectory held other timestamps (shifted by a dyadic amount) when the two
+        # were associated a first time; its stamps were then edited in place (evo_traj's own `traj.timestamps += offset`
+        # idiom). The association judged below must be that of the stamps the objects hold now.
+        d_ = case["earlier_shift"]
+        t2.timestamps -= d_
+        try:
+            sync.associate_trajectories(t1, t2, case["md"], case["off"])
+        except sync.SyncException:
+            pass
+        t2.timestamps += d_
     try:
         o1, o2 = sync.associate_trajectories(t1, t2, case["md"], case["off"])
         ids = []
